@@ -6,7 +6,7 @@ def fchk : List String := ["0|if data.mo is not None:", "1|if data.mo.kind == 'g
 def fchk_params : List String := ["data", "allow_changes", "filename"]
 def molden : List String := ["0|if data.mo is None:", "1|raise PrepareDumpError", "0|if data.obasis is None:", "1|raise PrepareDumpError", "0|if data.mo.kind == 'generalized':", "1|raise PrepareDumpError", "0|data = prepare_unrestricted_aminusb(data, allow_changes, filename, 'Molden')", "0|return prepare_segmented(data, False, allow_changes, filename, 'Molden')"]
 def molden_params : List String := ["data", "allow_changes", "filename"]
-def molekel : List String := ["0|if data.mo is None:", "1|raise PrepareDumpError", "0|if data.obasis is None:", "1|raise PrepareDumpError", "0|if data.mo.kind == 'generalized':", "1|raise PrepareDumpError", "0|if data.mo.occs is not None and abs(data.mo.nelec - np.round(data.mo.nelec)) > 1e-07:", "1|raise PrepareDumpError", "0|data = prepare_unrestricted_aminusb(data, allow_changes, filename, 'Molekel')", "0|return prepare_segmented(data, False, allow_changes, filename, 'Molekel')"]
+def molekel : List String := ["0|if data.mo is None:", "1|raise PrepareDumpError", "0|if data.obasis is None:", "1|raise PrepareDumpError", "0|if data.mo.kind == 'generalized':", "1|raise PrepareDumpError", "0|if data.mo.occs is not None and abs(data.mo.nelec - np.round(data.mo.nelec)) > 0.0001:", "1|raise PrepareDumpError", "0|data = prepare_unrestricted_aminusb(data, allow_changes, filename, 'Molekel')", "0|return prepare_segmented(data, False, allow_changes, filename, 'Molekel')"]
 def molekel_params : List String := ["data", "allow_changes", "filename"]
 def wfn : List String := ["0|if data.mo is None:", "1|raise PrepareDumpError", "0|if data.obasis is None:", "1|raise PrepareDumpError", "0|if data.mo.kind == 'generalized':", "1|raise PrepareDumpError", "0|for shell in data.obasis.shells:", "1|if any((kind != 'c' for kind in shell.kinds)):", "2|raise PrepareDumpError", "0|data = prepare_unrestricted_aminusb(data, allow_changes, filename, 'WFN')", "0|return prepare_segmented(data, False, allow_changes, filename, 'WFN')"]
 def wfn_params : List String := ["data", "allow_changes", "filename"]
